@@ -2942,6 +2942,36 @@ pub mod verif_hooks {
         (collector.response_id.clone(), calls)
     }
 
+    /// The run-time context compile entry point for a given thread / message: the selection
+    /// decision as it would be logged, the cut point and the id of the bundle artifact written.
+    pub fn compile_for_run(
+        continuities: &ContinuityStore,
+        event_log: &EventLog,
+        snapshot_dir: &Path,
+        run: &ContinuityRunLink,
+        run_session_id: &str,
+    ) -> Result<Value, String> {
+        let out = compile_context_bundle_for_run(
+            continuities,
+            event_log,
+            snapshot_dir,
+            run,
+            run_session_id,
+        )?;
+        Ok(serde_json::json!({
+            "compiler_id": out.decision.compiler_id,
+            "compiler_strategy": out.decision.compiler_strategy,
+            "limits": out.decision.limits,
+            "compaction_checkpoint": out.decision.compaction_checkpoint,
+            "compaction_checkpoints": out.decision.compaction_checkpoints,
+            "resets": out.decision.resets,
+            "reason": out.decision.reason,
+            "bundle_artifact_id": out.compiled.bundle_artifact_id,
+            "from_seq": out.compiled.from_seq,
+            "from_message_id": out.compiled.from_message_id,
+        }))
+    }
+
     /// `ToolChoiceEnforcement::from_value(..).allows_function(name)`
     pub fn tool_choice_allows(tool_choice: &Value, name: &str) -> bool {
         ToolChoiceEnforcement::from_value(tool_choice).allows_function(name)
